@@ -558,3 +558,194 @@ Proof.
          | context [match ?x with _ => _ end] => destruct x eqn:?
          end; inversion H; subst; clear H; try congruence; cbn; rewrite ?upd_same; auto.
 Qed.
+
+(* ------------------------------------------------------------------------------------------------ *)
+(* Progress: in every reachable state in which some consumer is inside an __anext__ call, some consumer can be
+   resumed (no interleaving deadlocks the consumers on the lock). *)
+Record Live (s : tst) : Prop := {
+  l_n : forall c, tphase s c <> TIdle -> c < tn s;
+  l_lockw : twait s <> [] -> towner s <> None;
+  l_wait : forall c, tphase s c = TLockWait -> In c (twait s) \/ towner s = Some c
+}.
+
+Lemma live_frame s s' c P : c < tn s -> P <> TLockWait ->
+  tn s' = tn s -> towner s' = towner s -> twait s' = twait s -> tphase s' = upd (tphase s) c P ->
+  Live s -> Live s'.
+Proof.
+  intros Hc HP En Eo Ew Ep [Hn Hl Hwt]. constructor; rewrite ?En, ?Eo, ?Ew, ?Ep; auto.
+  - intros c0 E. unfold upd in E. destruct (Nat.eqb_spec c0 c); [subst; exact Hc|now apply Hn].
+  - intros c0 E. unfold upd in E. destruct (Nat.eqb_spec c0 c); [congruence|now apply Hwt].
+Qed.
+
+Lemma finish_live s c had : c < tn s -> tphase s c <> TLockWait -> Live s -> Live (fst (fst (t_finish s c had))).
+Proof.
+  intros Hc Hw HL. unfold t_finish.
+  destruct (tcells s (tlink s c)) as [[v|]|]; [destruct had|destruct (tyielded s c)|]; cbn [fst]; try exact HL.
+  - apply (live_frame s _ c TIdle); auto; discriminate.
+  - apply (live_frame s _ c (TRetSh v)); auto; discriminate.
+  - apply (live_frame s _ c TIdle); auto; discriminate.
+  - apply (live_frame s _ c TEndCk); auto; discriminate.
+Qed.
+
+Lemma release_live s c : towner s = Some c -> tphase s c <> TLockWait -> Live s -> Live (t_release s).
+Proof.
+  intros Ho Hc [Hn Hl Hwt]. unfold t_release. destruct (twait s) as [|w r] eqn:E; constructor; cbn.
+  - exact Hn.
+  - intros H. exfalso. now apply H.
+  - intros c0 E0. destruct (Hwt c0 E0) as [[]|E1]. exfalso. rewrite Ho in E1. injection E1 as <-. contradiction.
+  - exact Hn.
+  - discriminate.
+  - intros c0 E0. destruct (Hwt c0 E0) as [[<-|I]|E1]; auto.
+    exfalso. rewrite Ho in E1. injection E1 as <-. contradiction.
+Qed.
+
+Lemma set_phase_live s c P : c < tn s -> P <> TLockWait -> Live s -> Live (set_phase s c P).
+Proof. intros Hc HP HL. apply (live_frame s _ c P); auto. Qed.
+
+Lemma store_live s c x : c < tn s -> Live s -> Live (t_store s c x).
+Proof. intros Hc HL. apply (live_frame s _ c TIdle); auto; discriminate. Qed.
+
+Lemma poll_live s c : c < tn s -> Live s -> Live (t_poll s c).
+Proof. intros Hc HL. apply (live_frame s _ c (TFilling (next_cell s))); auto; discriminate. Qed.
+
+Lemma release_phase s : tphase (t_release s) = tphase s.
+Proof. unfold t_release. destruct (twait s); reflexivity. Qed.
+Lemma release_tn s : tn (t_release s) = tn s.
+Proof. unfold t_release. destruct (twait s); reflexivity. Qed.
+
+Lemma fill_live s c x : c < tn s -> towner s = Some c -> Live s -> Live (fst (fst (t_fill s c x))).
+Proof.
+  intros Hc Ho HL. unfold t_fill.
+  assert (Hp : tphase (t_store s c x) c = TIdle) by (cbn; apply upd_same).
+  apply finish_live.
+  - now rewrite release_tn.
+  - rewrite release_phase, Hp. discriminate.
+  - apply (release_live _ c); [exact Ho|rewrite Hp; discriminate|now apply store_live].
+Qed.
+
+Lemma locked_live s c : c < tn s -> towner s = Some c -> Live s -> Live (fst (fst (t_locked s c))).
+Proof.
+  intros Hc Ho HL. unfold t_locked.
+  assert (H0 : Live (t_wake s c)) by (apply set_phase_live; [exact Hc|discriminate|exact HL]).
+  assert (Hp : tphase (t_wake s c) c = TIdle) by (cbn; apply upd_same).
+  destruct (tcells (t_wake s c) (tlink (t_wake s c) c)).
+  - apply finish_live.
+    + now rewrite release_tn.
+    + rewrite release_phase, Hp. discriminate.
+    + apply (release_live _ c); [exact Ho|rewrite Hp; discriminate|exact H0].
+  - assert (H1 : Live (t_poll (t_wake s c) c)) by now apply poll_live.
+    destruct (tmode s) as [|[|m]]; cbn [fst]; try exact H1.
+    apply fill_live; [exact Hc|exact Ho|exact H1].
+Qed.
+
+Lemma live_step s o : Live s -> (forall c, tphase s c = TLockYield -> towner s = Some c) ->
+  (forall c x, tphase s c = TFilling x -> towner s = Some c) -> Live (fst (fst (tstep s o))).
+Proof.
+  intros HL Hy Hf. destruct o as [c|c]; unfold tstep.
+  - destruct (negb (c <? tn s) || negb (is_tidle (tphase s c))) eqn:G; [exact HL|].
+    apply orb_false_elim in G as [G1 G2].
+    assert (Hc : c < tn s) by (apply negb_false_iff, Nat.ltb_lt in G1; exact G1).
+    assert (Hi : tphase s c = TIdle) by (destruct (tphase s c); cbn in G2; try discriminate; reflexivity).
+    destruct (tcells s (tlink s c)).
+    + apply finish_live; [exact Hc|rewrite Hi; discriminate|exact HL].
+    + destruct HL as [Hn Hl Hwt].
+      assert (Hnn : forall c0, upd (tphase s) c TLockYield c0 <> TIdle -> c0 < tn s).
+      { intros c0 E. unfold upd in E. destruct (Nat.eqb_spec c0 c); [subst; exact Hc|now apply Hn]. }
+      assert (Hnw : forall c0, upd (tphase s) c TLockWait c0 <> TIdle -> c0 < tn s).
+      { intros c0 E. unfold upd in E. destruct (Nat.eqb_spec c0 c); [subst; exact Hc|now apply Hn]. }
+      assert (Hen : Live (t_enqueue s c) \/ towner s = None).
+      { destruct (towner s) as [ow|] eqn:Eo; [left|now right].
+        constructor; cbn [t_enqueue tphase twait towner tn].
+        - exact Hnw.
+        - rewrite Eo. discriminate.
+        - intros c0 E. unfold upd in E. destruct (Nat.eqb_spec c0 c); [subst; left; apply in_or_app; right; now left|].
+          destruct (Hwt c0 E) as [I|I]; [left; apply in_or_app; now left|right; rewrite ?Eo in *; exact I]. }
+      destruct (towner s) as [ow|] eqn:Eo.
+      * cbn [fst]. destruct Hen as [L|L]; [exact L|discriminate].
+      * destruct (twait s) as [|w r] eqn:Ew; cbn [fst].
+        -- constructor; cbn [t_take tphase twait towner tn].
+           ++ exact Hnn.
+           ++ discriminate.
+           ++ intros c0 E. unfold upd in E. destruct (Nat.eqb_spec c0 c); [discriminate|].
+              destruct (Hwt c0 E) as [I|I]; [rewrite ?Ew in I; destruct I|rewrite ?Eo in I; discriminate].
+        -- exfalso. apply Hl; [rewrite ?Ew; discriminate|now rewrite ?Eo].
+  - destruct (negb (c <? tn s)) eqn:G; [exact HL|].
+    assert (Hc : c < tn s) by (apply negb_false_iff, Nat.ltb_lt in G; exact G).
+    destruct (tphase s c) eqn:Ep; try exact HL.
+    + apply locked_live; auto.
+    + destruct (owner_is (towner s) c) eqn:Eo; [|exact HL].
+      apply locked_live; auto. unfold owner_is in Eo. destruct (towner s); [|discriminate].
+      apply Nat.eqb_eq in Eo. now subst.
+    + apply fill_live; eauto.
+    + cbn [fst]. apply (live_frame s _ c TIdle); auto; discriminate.
+    + cbn [fst]. apply (live_frame s _ c TIdle); auto; discriminate.
+Qed.
+
+Lemma run_live src mode n ops : Live (trun mode src n ops).
+Proof.
+  unfold trun.
+  assert (G : forall ops s, TInv src s /\ Live s -> TInv src (final tstep1 s ops) /\ Live (final tstep1 s ops)).
+  { clear. induction ops as [|o r IH]; intros s H; [exact H|]. cbn. apply IH. destruct H as [HI HL]. split.
+    - now apply step_inv.
+    - unfold tstep1. destruct (tstep s o) as [[s1 rr] ev] eqn:E. cbn [fst].
+      replace s1 with (fst (fst (tstep s o))) by now rewrite E.
+      destruct HI as [HC _]. apply live_step; [exact HL|apply (c_yield _ _ HC)|].
+      intros c x Ex. now destruct (c_fill _ _ HC c x Ex). }
+  apply G. split; [split; [apply core_init|intros o E; discriminate]|].
+  constructor; cbn; intros; congruence.
+Qed.
+
+Lemma finish_not_rejected s c had : tcells s (tlink s c) <> None -> snd (fst (t_finish s c had)) <> TRejected.
+Proof.
+  intros H. unfold t_finish. destruct (tcells s (tlink s c)) as [[v|]|]; [destruct had|destruct (tyielded s c)|];
+    cbn; congruence.
+Qed.
+
+Lemma release_cells s : tcells (t_release s) = tcells s /\ tlink (t_release s) = tlink s.
+Proof. unfold t_release. destruct (twait s); auto. Qed.
+
+Lemma fill_not_rejected s c x : snd (fst (t_fill s c x)) <> TRejected.
+Proof.
+  unfold t_fill. apply finish_not_rejected. destruct (release_cells (t_store s c x)) as [-> ->].
+  cbn. rewrite upd_same. discriminate.
+Qed.
+
+Lemma locked_not_rejected s c : snd (fst (t_locked s c)) <> TRejected.
+Proof.
+  unfold t_locked. destruct (tcells (t_wake s c) (tlink (t_wake s c) c)) eqn:E.
+  - apply finish_not_rejected. destruct (release_cells (t_wake s c)) as [-> ->]. congruence.
+  - destruct (tmode s) as [|[|m]]; cbn [fst snd]; try discriminate. apply fill_not_rejected.
+Qed.
+
+Theorem tee_no_deadlock : forall mode src n ops c,
+  let s := trun mode src n ops in
+  tphase s c <> TIdle -> exists c', snd (fst (tstep s (TResume c'))) <> TRejected.
+Proof.
+  intros mode src n ops c s Hc.
+  destruct (run_inv src mode n ops) as [HC HO]. pose proof (run_live src mode n ops) as [Hn Hl Hwt].
+  fold s in HC, HO, Hn, Hl, Hwt.
+  assert (R : forall o, o < tn s -> (tphase s o = TLockYield \/ (exists x, tphase s o = TFilling x) \/
+                tphase s o = TEndCk \/ (exists v, tphase s o = TRetSh v) \/
+                (tphase s o = TLockWait /\ towner s = Some o)) ->
+              snd (fst (tstep s (TResume o))) <> TRejected).
+  { intros o Ho Hp. unfold tstep. apply Nat.ltb_lt in Ho. rewrite Ho. cbn [negb].
+    destruct Hp as [E|[[x E]|[E|[[v E]|[E Eo]]]]]; rewrite E.
+    - apply locked_not_rejected.
+    - apply fill_not_rejected.
+    - cbn. discriminate.
+    - cbn. discriminate.
+    - rewrite Eo. cbn. rewrite Nat.eqb_refl. apply locked_not_rejected. }
+  assert (RO : forall o, towner s = Some o -> snd (fst (tstep s (TResume o))) <> TRejected).
+  { intros o Eo. pose proof (HO o Eo) as Hlp.
+    assert (Hne : tphase s o <> TIdle) by (intros E; rewrite E in Hlp; discriminate).
+    apply R; [now apply Hn|].
+    destruct (tphase s o) eqn:E; cbn in Hlp; try discriminate; eauto 6. }
+  destruct (tphase s c) eqn:E; try congruence.
+  - exists c. apply R; [apply Hn; congruence|auto].
+  - destruct (Hwt c E) as [I|Eo]; [|exists c; now apply RO].
+    destruct (towner s) as [o|] eqn:Eo; [exists o; now apply RO|].
+    exfalso. apply Hl; [intros Z; rewrite Z in I; destruct I|reflexivity].
+  - exists c. apply R; [apply Hn; congruence|eauto].
+  - exists c. apply R; [apply Hn; congruence|auto].
+  - exists c. apply R; [apply Hn; congruence|eauto 6].
+Qed.
